@@ -231,6 +231,10 @@ def py_key(k):
         if len(items) == 1 and k.get("bare"):
             return items[0]
         return tuple(items)
+    if k["t"] == "ellip":
+        def conv(l):
+            return [int(it[1]) if it[0] == "i" else slice(it[1], it[2], it[3]) for it in l]
+        return tuple(conv(k["before"]) + [Ellipsis] + conv(k["after"]))
     if k["t"] == "mask":
         return np.array(k["bits"], bool).reshape(k["mshape"])
     return [int(i) for i in k["ix"]]
@@ -919,6 +923,26 @@ else:
         azimuth_case(cname, shape, pick_meta(cname))
     if N:
         extra_strata(1 if N <= 1000 else 3)
+        # keys with an Ellipsis, handed to the Coq model too (KEllip): the Ellipsis stands for full slices of the axes
+        # not named; too many items raise
+        for cname in CLASSES:
+            for shape in [(4,), (2, 3), (3, 1, 2), (2, 2, 3, 2)]:
+                nd = len(shape)
+                for rep_i in range(2 if N <= 1000 else 6):
+                    nb = R.randint(0, nd)
+                    na = R.randint(0, nd - nb) if rep_i % 3 != 2 else nd - nb + 1      # every third key has one item too many
+                    def item(ax):
+                        n = shape[ax] if 0 <= ax < nd else 2
+                        return ["i", R.randint(-n, n - 1)] if R.random() < 0.5 else gen_slice(n)
+                    before = [item(a) for a in range(nb)]
+                    after = [item(nd - na + a) for a in range(na)]
+                    prog = [{"op": "get", "key": {"t": "ellip", "before": before, "after": after}}]
+                    if R.random() < 0.5:
+                        prog.append({"op": "flatten"})
+                    flagmode = "mixed" if cname in ROT else "none"
+                    x0 = build(cname, shape, flagmode, pick_meta(cname), "plain")
+                    st(f"ellipsis-key/{cname}")
+                    run_case(cname, x0, prog, f"{cname}/ellipsis-key", props=False)
 
 # ---- normalising keeps each element's own DIRECTION whatever its length: very short and very long elements
 # (a tolerance on the norm instead of "exactly zero" would turn short non-zero vectors into zero vectors)
